@@ -342,9 +342,13 @@ func genRoute(r *sx.Rng, small bool) sx.Tree {
 		}
 		return sx.T(calls...)
 	}
+	dupIDs := r.Chance(10) // config validation is not part of WithConfig: two nodes may carry the same id
 	party := func() sx.Tree {
 		id := nextID
 		nextID++
+		if dupIDs && id > 1 && r.Chance(40) {
+			return sx.T(sx.L(r.Range(1, id-1)), subs(), sx.B(r.Chance(70)))
+		}
 		return sx.T(sx.L(id), subs(), sx.B(r.Chance(25)))
 	}
 	total := 0
